@@ -192,14 +192,29 @@ impl SwiftField for Field61 {
                 (remaining.to_string(), None)
             };
 
+        // Without a bank reference the supplementary details may still follow on a new line
+        let mut supplementary_line = None;
+        let customer_ref_part = match customer_ref_part.find('\n') {
+            Some(newline_pos) if after_customer_ref.is_none() => {
+                supplementary_line = Some(customer_ref_part[newline_pos + 1..].to_string());
+                customer_ref_part[..newline_pos].to_string()
+            }
+            _ => customer_ref_part,
+        };
+
         // Customer reference is up to 16 characters
         let customer_reference;
         let mut supplementary_details = None;
+        if let Some(details) = supplementary_line
+            && !details.is_empty()
+        {
+            supplementary_details = Some(details);
+        }
 
         if customer_ref_part.len() <= 16 {
             customer_reference = customer_ref_part;
         } else {
-            if after_customer_ref.is_some() {
+            if after_customer_ref.is_some() || supplementary_details.is_some() {
                 return Err(ParseError::InvalidFormat {
                     message: "Field 61 customer reference exceeds 16 characters".to_string(),
                 });
@@ -302,7 +317,8 @@ impl SwiftField for Field61 {
                 result.push_str(supplementary_details);
             }
         } else if let Some(ref supplementary_details) = self.supplementary_details {
-            // If no bank reference but supplementary details exist, append after customer ref
+            // No bank reference: the supplementary details still go on their own line
+            result.push('\n');
             result.push_str(supplementary_details);
         }
 
